@@ -133,6 +133,10 @@ def root_local(body, local, depth=10):
         if len(ds) != 1 or ds[0][0] != 'stmt':
             return cur
         rv = ds[0][3]['rv']
+        if rv['k'] == 'ref' and rv['place']['p'] == ['*']:
+            # a reborrow &(*x) denotes what x denotes
+            cur = rv['place']['l']
+            continue
         p = op_place(rv['op']) if rv['k'] == 'use' else None
         if p is None or p['p']:
             return cur
